@@ -81,8 +81,13 @@ def key_of(parser: Any, a: Any) -> str:
     return [k for k in parser.get_possible_config_keys(a) if not k.startswith('--')][0]
 
 
-def toml_text(parser: Any, a: Any, v: Any) -> str:
+def toml_text(parser: Any, a: Any, v: Any, native: bool = False) -> str:
     import toml
+    if native and a.type is int:
+        try:
+            v = int(v)          # written as a TOML integer, not as a string
+        except ValueError:
+            pass
     return '[tool.pydoctor]\n' + toml.dumps({key_of(parser, a): v})
 
 
@@ -141,7 +146,9 @@ def load(fname: Any, text: str, argv: Sequence[str]) -> Tuple[Any, List[str]]:
 
 FORMATS = {'toml': ('pyproject.toml', 'tool.pydoctor'), 'setupcfg': ('setup.cfg', 'tool:pydoctor'), 'ini': ('pydoctor.ini', 'pydoctor'),
            # the INI-only way of writing a list: one item per line
-           'setupcfg-lines': ('setup.cfg', 'tool:pydoctor'), 'ini-lines': ('pydoctor.ini', 'pydoctor')}
+           'setupcfg-lines': ('setup.cfg', 'tool:pydoctor'), 'ini-lines': ('pydoctor.ini', 'pydoctor'),
+           # numbers written with TOML's own number type
+           'toml-native': ('pyproject.toml', 'tool.pydoctor')}
 
 
 BASE_FORMATS = ('toml', 'setupcfg', 'ini')
@@ -156,7 +163,7 @@ def file_for(parser: Any, a: Any, v: Any, fmt: str) -> Tuple[str, str]:
     fname, section = FORMATS[fmt]
     if fmt.endswith('-lines'):
         return fname, f'[{section}]\n{key_of(parser, a)} =\n' + ''.join('    ' + i.replace('%', '%%') + '\n' for i in v)
-    return fname, (toml_text(parser, a, v) if fmt == 'toml' else ini_text(parser, a, v, section))
+    return fname, (toml_text(parser, a, v, fmt == 'toml-native') if fmt.startswith('toml') else ini_text(parser, a, v, section))
 
 
 def judge_option(dest: str, res: Dict[str, Any]) -> None:
@@ -169,6 +176,8 @@ def judge_option(dest: str, res: Dict[str, Any]) -> None:
         cli, _ = load(None, '', cli_args(a, v))
         for fmt in FORMATS:
             if fmt.endswith('-lines') and not lines_ok(v):
+                continue
+            if fmt == 'toml-native' and not (a.type is int and isinstance(v, str) and v.lstrip('-').isdigit()):
                 continue
             fname, text = file_for(parser, a, v, fmt)
             got, warns = load(fname, text, [])
